@@ -65,6 +65,8 @@ def parseQ (s : String) : Option Qry :=
   | "FO", some n => some (.fAny n)
   | "JO", some n => some (.fAny n)
   | "I", some n => some (.iMap (n / 1000) (n / 100 % 10) (n % 100))
+  | "C", some n => some (.cWalk (n / 100) (n % 100))
+  | "D", some n => some (.cSeek (n / 10000) (n / 100 % 100) (n % 100))
   | _, _ => none
 
 def parseAns (s : String) : Option (List Nat) :=
@@ -82,8 +84,82 @@ def parseReadTx (tok : String) : Option (String × ReadTx) :=
     pure (who, { tagStart := ← ts.toNat?, tagEnd := ← te.toNat?, reads := rs })
   | _ => none
 
+/-! ### cw cases: a script of writer and reader events played by ONE goroutine (several read transactions open at once,
+    the writer committing — or in the middle of a transaction — between their reads).  The driver RUNS the MVCC model
+    (`C18.run` over `applyOp` / `evalQ`) on the script and prints the log in the harness' format, so for these cases the
+    implementation's output is compared with the model's output as a whole.
+
+      c:<ops> / a:<ops>   a whole write transaction (begin, operations, commit / rollback)
+      wb  w:<op>  wc  wa  the same in pieces: reader events may come in between
+      rb<r>  re<r>        reader r begins / ends a read transaction
+      r<r>:<q>            reader r observes q (any observation kind; C<k><aa> opens and walks a cursor, D<k><aa><xx> seeks the
+                          reader's cursor for (k, aa) — walked to its end before — to a<xx> and walks it again) -/
+
+def parseCwEvent (tok : String) : Option (List (Ev WOp Qry × String)) :=
+  match tok.toList with
+  | 'w' :: 'b' :: [] => some [(.wbegin, "")]
+  | 'w' :: 'c' :: [] => some [(.wcommit, "")]
+  | 'w' :: 'a' :: [] => some [(.wabort, "")]
+  | 'w' :: ':' :: rest => (parseWOp (String.ofList rest)).map fun o => [(.wop o, "")]
+  | 'r' :: 'b' :: rest => (String.ofList rest).toNat?.map fun r => [(.rbegin r, "")]
+  | 'r' :: 'e' :: rest => (String.ofList rest).toNat?.map fun r => [(.rend r, "")]
+  | 'r' :: rest =>
+    match (String.ofList rest).splitOn ":" with
+    | [r, q] => do pure [(.rread (← r.toNat?) (← parseQ q), q)]
+    | _ => none
+  | _ =>
+    match parseTx tok with
+    | some (true, ops) => some ([(.wbegin, "")] ++ ops.map (fun o => (.wop o, "")) ++ [(.wcommit, "")])
+    | some (false, ops) => some ([(.wbegin, "")] ++ ops.map (fun o => (.wop o, "")) ++ [(.wabort, "")])
+    | none => none
+
+def parseCw (toks : List String) : Option (List (Ev WOp Qry × String)) :=
+  (toks.mapM parseCwEvent).map List.flatten
+
+def showAns (a : List Nat) : String :=
+  if a.isEmpty then "-" else ".".intercalate (a.map toString)
+
+/-- the model's log of a cw script in the harness' output format: `v<committed>` then one token per read transaction that
+    observed something, in the order the read transactions began: `<reader>.<serial>:<tag>:<tag>:<q>=<answer>|…` -/
+def cwModelLine (evs : List (Ev WOp Qry × String)) : String :=
+  let s := C18.run applyOp evalQ (St.init [] : St Ver WOp Qry (List Nat)) (evs.map (·.1))
+  -- the spelling of the k-th observation of the log = the k-th rread of the script that had a pin; replay to know which
+  let spell : List String := Id.run do
+    let mut st : St Ver WOp Qry (List Nat) := St.init []
+    let mut out : List String := []
+    for (e, txt) in evs do
+      let st' := C18.step applyOp evalQ st e
+      if st'.log.length > st.log.length then out := out ++ [txt]
+      st := st'
+    pure out
+  let obs := s.log.reverse.zip spell
+  let rtxs := (obs.map (·.1.rtx)).eraseDups
+  let sorted := rtxs.foldl (fun acc x => (acc.filter (· < x)) ++ [x] ++ (acc.filter (· > x))) []
+  let toks := sorted.map fun n =>
+    let mine := obs.filter (·.1.rtx == n)
+    match mine with
+    | [] => ""
+    | (o, _) :: _ => s!"{o.reader}.{n}:{o.tag}:{o.tag}:" ++ "|".intercalate (mine.map fun (o, txt) => s!"{txt}={showAns o.a}")
+  " ".intercalate (s!"v{s.txs.length}" :: toks)
+
+/-- the committed / aborted write transactions of a cw script, in order (what `judge` needs) -/
+def cwTxsGo (evs : List (Ev WOp Qry)) (cur : Option (List WOp)) (acc : List (Bool × List WOp)) : List (Bool × List WOp) :=
+  match evs with
+  | [] => acc
+  | .wbegin :: r => cwTxsGo r (match cur with | none => some [] | c => c) acc
+  | .wop o :: r => cwTxsGo r (cur.map (· ++ [o])) acc
+  | .wcommit :: r => (match cur with | some ops => cwTxsGo r none (acc ++ [(true, ops)]) | none => cwTxsGo r none acc)
+  | .wabort :: r => (match cur with | some ops => cwTxsGo r none (acc ++ [(false, ops)]) | none => cwTxsGo r none acc)
+  | _ :: r => cwTxsGo r cur acc
+
+def cwTxs (evs : List (Ev WOp Qry)) : List (Bool × List WOp) := cwTxsGo evs none []
+
 def step (line : String) : String :=
   match splitSp line with
+  | "cw" :: _ :: toks =>
+    match parseCw toks with
+    | some evs => cwModelLine evs
+    | none => "bad-case"
   | "mv" :: _ :: _ :: _ :: txs =>
     match txs.mapM parseTx with
     | some ts => s!"v{(committedTxs ts).length}"
@@ -106,10 +182,7 @@ def firstBadRead (txs : List (Bool × List WOp)) (t : ReadTx) : String :=
     | some qa => s!"read-differs(got:{qa.2},model:{evalQ qa.1 (versionOf txs t.tagStart)},obs#{(t.reads.takeWhile (fun qb => evalQ qb.1 (versionOf txs t.tagStart) == qb.2)).length})"
     | none => "?"
 
-def judge (txs : List String) (impl : String) : String :=
-  match txs.mapM parseTx with
-  | none => "bad-case"
-  | some ts =>
+def judgeParsed (ts : List (Bool × List WOp)) (impl : String) : String :=
     match splitSp impl with
     | v :: toks =>
       if v != s!"v{(committedTxs ts).length}" then s!"fail:final-version:{v}"
@@ -121,6 +194,11 @@ def judge (txs : List String) (impl : String) : String :=
           | some rt => s!"fail@{rt.1}:{firstBadRead ts rt.2}"
     | [] => "unparsed"
 
+def judge (txs : List String) (impl : String) : String :=
+  match txs.mapM parseTx with
+  | none => "bad-case"
+  | some ts => judgeParsed ts impl
+
 def specStep (line : String) : String :=
   match line.splitOn "\t" with
   | [case, impl] =>
@@ -128,6 +206,10 @@ def specStep (line : String) : String :=
     | "mv" :: _ :: _ :: _ :: txs => judge txs impl
     | "cr" :: _ :: _ :: _ :: _ :: txs => judge txs impl
     | "sq" :: _ :: _ :: _ :: txs => judge txs impl
+    | "cw" :: _ :: toks =>
+      match parseCw toks with
+      | some evs => judgeParsed (cwTxs (evs.map (·.1))) impl
+      | none => "bad-case"
     | "race" :: _ => if impl == "done" then "ok" else "fail:" ++ impl
     | _ => "bad-case"
   | _ => "bad-case"
